@@ -18,7 +18,8 @@ WINDOW_FINDING = {"commit": "F20/F21", "late": "F26", "sdspawn": "F22", "dup": "
 
 # C05 (an unsatisfied dependency => never launched) is the negative side of C01: the C01 monitor decides on its
 # own, from the dependency's observed end and exit code, whether a launch was justified.
-EXTRA_MONITORS = {"C05": ["C01"]}
+# C03x (Sup/Check.v): shutdown completeness judged by the observer's own facts instead of the reported snapshot
+EXTRA_MONITORS = {"C05": ["C01"], "C03": ["C03x"]}
 
 
 def win_names(code):
